@@ -155,6 +155,8 @@ template <size_t K> struct Conv {
         { ruint<K> c(x); CHK(same(c, x), "copy constructor"); }
         { SI s; from_mpz(s.Value, *a[0]); SI t(x); s = t; CHK(same(s.Value, x), "rint operator="); SI u(t); CHK(same(u.Value, x), "rint copy constructor");
           SI v; from_mpz(v.Value, *a[0]); copy(v, t); CHK(same(v.Value, x), "copy(rint)"); reset(v); ruint<K> z0; memset(static_cast<void*>(&z0), 0, sizeof(z0)); CHK(same(v.Value, z0), "reset(rint)"); }
+        // neg(rint&, const rint&) (compiles since /repo 47f3dcf) against unary minus and neg(rint&)
+        { SI t2(x), ng, n2(-t2), n3(t2); from_mpz(ng.Value, *a[0]); neg(ng, t2); neg(n3); CHK(same(ng.Value, n2.Value) && same(n3.Value, n2.Value), "neg(rint,rint)"); }
         alignas(16) unsigned char buf[sizeof(ruint<K>)];
         memset(buf, 0xA5, sizeof(buf)); ruint<K>* d = new (buf) ruint<K>();
         ruint<K> zero; memset(static_cast<void*>(&zero), 0, sizeof(zero));
